@@ -37,6 +37,9 @@ def I(n):
     return ("int", n)
 
 
+DEFAULT = ("ctor", "<default>", ())   # `Default::default()` of a type the evaluator does not know
+
+
 def TOK(text):
     return ("tok", text)
 
@@ -434,6 +437,8 @@ class AEval(dtable.Eval):
                 return self.call_fn(last, args)
             if f["path"] in ("Box::new", "Rc::new", "Arc::new", "Into::into", "From::from", "std::convert::identity", "Clone::clone", "core::clone::Clone::clone") and len(args) == 1:
                 return args[0]
+            if last == "default" and not args and f["path"] in ("Default::default", "T::default", "std::default::Default::default", "core::default::Default::default"):
+                return DEFAULT
             if last[:1].isupper():
                 return C(last, *args)
             if f["path"] in ("Vec::new", "Vec::with_capacity", "BTreeMap::new", "BTreeSet::new", "HashMap::new", "HashSet::new", "VecDeque::new"):
@@ -510,6 +515,8 @@ class AEval(dtable.Eval):
             return C("Ok", UNIT) if m.startswith("write") else UNIT
         r = self.ex(rnode, env)
         args = [self.ex(a, env) for a in e["args"]]
+        if r == DEFAULT and m in ("iter", "into_iter", "iter_mut", "is_empty", "len", "first", "last", "get"):
+            r = L()   # the default of a slice / Vec / map is the empty collection
         if m in self.builtins:
             return self.builtins[m](r, args)
         if r[0] == "str":
@@ -657,6 +664,8 @@ class AEval(dtable.Eval):
                 return r[2][0] if some else args[0]
             if m == "unwrap_or_else":
                 return r[2][0] if some else self.apply(args[0], [])
+            if m == "unwrap_or_default" and not args:
+                return r[2][0] if some else DEFAULT
             if m == "map_or":
                 return self.apply(args[1], [r[2][0]]) if some else args[0]
             if m == "map_or_else":
